@@ -166,6 +166,28 @@ func watch(o *Outcome, deadline time.Duration, fn func(o *Outcome, pg *progress)
 	}
 }
 
+// guarded runs a small observation under recover() and a watchdog; "" = returned normally.
+func guarded(deadline time.Duration, fn func()) string {
+	done := make(chan string, 1)
+	go func() {
+		defer func() {
+			if r := recover(); r != nil {
+				site, _ := stackTop(debug.Stack())
+				done <- fmt.Sprintf("panic: %v [at %s]", r, site)
+			}
+		}()
+		fn()
+		done <- ""
+	}()
+	select {
+	case r := <-done:
+		return r
+	case <-time.After(deadline):
+		hangs++
+		return fmt.Sprintf("hang: did not return within %v", deadline)
+	}
+}
+
 // ExecSchema runs NewSchema on arbitrary bytes.
 func ExecSchema(schema []byte, extra customfuncs.CustomFuncs, deadline time.Duration) (*Outcome, omniparser.Schema) {
 	curCase.Store(mkCase(schema, nil))
